@@ -1219,9 +1219,78 @@ func checkDocID(cont bool) (msg string, obs interface{}) {
 	return
 }
 
+// checkFragmentID: a schema of an external document carries an `id` that is a fragment ("#tag", "defs.json#tag": the draft-04 way
+// of naming a sub-schema).  Expanding an element that walks it, then - with the same cache - another element that refers into the
+// same document, gives what the second element gives with no cache at all.
+func checkFragmentID(id string) (msg string, obs interface{}) {
+	defer func() {
+		if r := recover(); r != nil {
+			msg = fmt.Sprintf("panic: %v", r)
+		}
+	}()
+	const rootURL, defsURL = "file:///fi/root.json", "file:///fi/defs.json"
+	docs := map[string]string{
+		rootURL: `{"swagger":"2.0","info":{"title":"t","version":"1"},"paths":{}}`,
+		defsURL: `{"definitions":{"tagged":{"id":"` + id + `","type":"object","properties":{"n":{"$ref":"#/definitions/count"}}},"count":{"type":"integer","minimum":0}}}`,
+	}
+	loader := func(u string) (json.RawMessage, error) {
+		if d, ok := docs[u]; ok {
+			return json.RawMessage(d), nil
+		}
+		return nil, fmt.Errorf("no such document %s", u)
+	}
+	run := func(element string, cache spec.ResolutionCache) string {
+		s := new(spec.Schema)
+		if err := json.Unmarshal([]byte(element), s); err != nil {
+			return "decode: " + err.Error()
+		}
+		var err error
+		opts := &spec.ExpandOptions{RelativeBase: rootURL, PathLoader: loader}
+		if cache == nil {
+			err = spec.ExpandSchemaWithBasePath(s, nil, opts)
+		} else {
+			err = spec.ExpandSchemaWithBasePath(s, cache, opts)
+		}
+		if err != nil {
+			return "error"
+		}
+		b, _ := json.Marshal(s)
+		return string(b)
+	}
+	first, second := `{"$ref":"defs.json#/definitions/tagged"}`, `{"type":"array","items":{"$ref":"defs.json#/definitions/count"}}`
+	for _, el := range []string{second, first} {
+		base := run(el, nil)
+		reused := &mapCache{m: map[string]interface{}{}}
+		run(first, reused)
+		if got := run(el, reused); got != base {
+			return "a cache reused after an expansion that walked a schema with a fragment `id` changes the expansion of another element", map[string]string{"element": el, "with": got, "without": base}
+		}
+		pre := &mapCache{m: map[string]interface{}{}}
+		var v interface{}
+		_ = json.Unmarshal([]byte(docs[defsURL]), &v)
+		pre.Set(defsURL, v)
+		run(first, pre)
+		if got := run(el, pre); got != base {
+			return "a pre-loaded cache used for two elements, the first of which walks a schema with a fragment `id`, changes the expansion of the second", map[string]string{"element": el, "with": got, "without": base}
+		}
+	}
+	return
+}
+
 func oracleC18Scoped(r *rng, n int, tier string) *oracleResult {
 	exQuiet()
 	res := &oracleResult{Stats: map[string]int{}}
+	for _, id := range []string{"#tag", "defs.json#tag", "file:///fi/defs.json#tag"} {
+		in := scopedIDInput{Where: "fragment-id:" + id}
+		res.Evaluations += 6
+		res.Distinct++
+		if msg, obs := checkFragmentID(id); msg != "" {
+			res.Stats["fail:cache-changes-result:fragment-id"]++
+			if res.Stats["fail:cache-changes-result:fragment-id"] <= 1 {
+				res.Failures = append(res.Failures, failure{Property: "C18", What: msg, Shape: "cache-changes-result:fragment-id", Input: in, Observed: obs})
+			}
+		}
+	}
 	for _, cont := range []bool{true, false} {
 		in := scopedIDInput{Where: "document-id", Cont: cont}
 		res.Evaluations += 12
@@ -1254,6 +1323,12 @@ func init() {
 		var in scopedIDInput
 		res := &oracleResult{Stats: map[string]int{}, Evaluations: 1}
 		if json.Unmarshal(input, &in) != nil {
+			return res
+		}
+		if strings.HasPrefix(in.Where, "fragment-id:") {
+			if msg, obs := checkFragmentID(strings.TrimPrefix(in.Where, "fragment-id:")); msg != "" {
+				res.Failures = append(res.Failures, failure{Property: "C18", What: msg, Shape: "cache-changes-result:fragment-id", Input: in, Observed: obs})
+			}
 			return res
 		}
 		if in.Where == "document-id" {
@@ -1583,6 +1658,44 @@ func checkDanglingFixed(ptr string) string {
 	return ""
 }
 
+// checkAnchorID: a located document (no root value) holds, under `definitions`, a schema with a plain-name `id` ("#address"); the
+// schema being expanded - the document itself - refers to its own definitions by fragment.  Every such reference that exists
+// is expanded; one that leads nowhere in the DOCUMENT (although the anchored schema has a member of that name) is reported.
+func checkAnchorID(dangling bool) string {
+	const docURL = "file:///an/doc.json"
+	refs := `"a":{"$ref":"#/definitions/name"},"z":{"$ref":"#/definitions/address"}`
+	if dangling {
+		refs += `,"s":{"$ref":"#/properties/street"}`
+	}
+	doc := `{"type":"object","definitions":{"address":{"id":"#address","type":"object","properties":{"street":{"type":"string","description":"street of address"}}},` +
+		`"name":{"type":"string","description":"name of doc"}},"properties":{` + refs + `}}`
+	loader := func(u string) (json.RawMessage, error) {
+		if u == docURL {
+			return json.RawMessage(doc), nil
+		}
+		return nil, fmt.Errorf("no such document %s", u)
+	}
+	for _, cont := range []bool{false, true} {
+		sch := new(spec.Schema)
+		if json.Unmarshal([]byte(doc), sch) != nil {
+			return ""
+		}
+		err := spec.ExpandSchemaWithBasePath(sch, nil, &spec.ExpandOptions{RelativeBase: docURL, PathLoader: loader, ContinueOnError: cont})
+		out, _ := json.Marshal(sch)
+		switch {
+		case !dangling && err != nil:
+			return fmt.Sprintf("an error is returned although every reference of the located document resolves (a definition carries a plain-name id): %v", err)
+		case !dangling && !strings.Contains(string(out), `"a":{"description":"name of doc"`):
+			return "a resolvable reference of a located document is not expanded (a definition carries a plain-name id): " + exClip(string(out), 300)
+		case dangling && !cont && err == nil:
+			return "no error although `#/properties/street` leads nowhere in the located document (only the anchored definition has such a member)"
+		case dangling && cont && (err != nil || !strings.Contains(string(out), `"$ref":"#/properties/street"`)):
+			return fmt.Sprintf("ContinueOnError: the unresolvable `#/properties/street` is not left in place (err=%v): %s", err, exClip(string(out), 300))
+		}
+	}
+	return ""
+}
+
 func refSiblingCases() []refSiblingInput {
 	var out []refSiblingInput
 	for _, f := range []string{"missing-pointer", "refused-document"} {
@@ -1603,6 +1716,14 @@ func oracleC08Sibling(r *rng, n int, tier string) *oracleResult {
 			if len(res.Failures) < 2 {
 				res.Failures = append(res.Failures, failure{Property: "C08", What: msg, Shape: "silent-failure:below-a-member-next-to-a-reference", Input: in})
 			}
+		}
+	}
+	for _, dangling := range []bool{false, true} {
+		res.Evaluations += 2
+		res.Distinct++
+		if msg := guardedMsg(func() string { return checkAnchorID(dangling) }); msg != "" {
+			res.Stats["fail:anchor-id"]++
+			res.Failures = append(res.Failures, failure{Property: "C08", What: msg, Shape: "silent-failure:plain-name-id", Input: refSiblingInput{Kind: "anchor-id", Fault: fmt.Sprint(dangling)}})
 		}
 	}
 	for _, ptr := range danglingFixedPointers {
@@ -1627,6 +1748,12 @@ func init() {
 		if json.Unmarshal(input, &in) != nil {
 			return res
 		}
+		if in.Kind == "anchor-id" {
+			if msg := guardedMsg(func() string { return checkAnchorID(in.Fault == "true") }); msg != "" {
+				res.Failures = append(res.Failures, failure{Property: "C08", What: msg, Shape: "silent-failure:plain-name-id", Input: in})
+			}
+			return res
+		}
 		if in.Kind == "pointer" {
 			if msg := checkDanglingFixed(in.Fault); msg != "" {
 				res.Failures = append(res.Failures, failure{Property: "C08", What: msg, Shape: "silent-failure:pointer-that-leads-nowhere", Input: in})
@@ -1638,4 +1765,14 @@ func init() {
 		}
 		return res
 	}
+}
+
+// guardedMsg runs a check that calls the library in this process; a panic is a message.
+func guardedMsg(f func() string) (msg string) {
+	defer func() {
+		if r := recover(); r != nil {
+			msg = fmt.Sprintf("panic: %v", r)
+		}
+	}()
+	return f()
 }
